@@ -354,9 +354,11 @@ def build_debug_frame(fdes, arch, order=None, n_cies=1, mixed=False):
             out += fde(i, cie_off)
     return out, offsets
 
-def build_eh_frame_hdr(fdes, offsets, eh_frame_svma, hdr_svma=None, enc="abs8"):
-    """Binary search table over all FDEs, sorted by start (the producer's contract)."""
-    ents = sorted(((f["start"], eh_frame_svma + offsets[i]) for i, f in enumerate(fdes)), key=lambda e: e[0])
+def build_eh_frame_hdr(fdes, offsets, eh_frame_svma, hdr_svma=None, enc="abs8", extra=()):
+    """Binary search table over all FDEs, sorted by start (the producer's contract).
+    extra: further table entries (start svma, offset into .eh_frame) - a table that points at things which are not FDEs"""
+    ents = sorted([(f["start"], eh_frame_svma + offsets[i]) for i, f in enumerate(fdes)] +
+                  [(a, eh_frame_svma + o) for a, o in extra], key=lambda e: e[0])
     if enc == "abs8":
         out = bytes([1, 0x04, 0x03, 0x04])                 # version, eh_frame_ptr udata8, count udata4, table udata8
         out += struct.pack("<Q", eh_frame_svma)
@@ -413,7 +415,7 @@ class Script:
         return self.add("mod %s %s %s %s %s A none B 0" % (mid, hx(start), hx(end), hx(base_avma), hx(base_svma)))
     def module_dwarf(self, mid, start, end, base_avma, base_svma, pres, fdes, rng=None,
                      shuffle=False, n_cies=1, eh_svma=None, hdr_svma=None, hdr_enc="abs8", pcrel=False, mixed=False, macho_names=False,
-                     order=None):
+                     order=None, hdr_extra=()):
         if order is not None:
             order = list(order)                  # explicit section order of the FDEs
         else:
@@ -439,7 +441,7 @@ class Script:
                 secs.append((".text", None, (text_svma, text_svma + 0x100000)))
                 secs.append((".got", None, (got_svma, got_svma + 0x100)))
             if pres == "hdr":
-                hdr = build_eh_frame_hdr(sec_fdes, offs, eh_svma, hdr_svma, hdr_enc)
+                hdr = build_eh_frame_hdr(sec_fdes, offs, eh_svma, hdr_svma, hdr_enc, hdr_extra)
                 secs.append((".eh_frame_hdr", hdr, (hdr_svma, hdr_svma + len(hdr))))
         a = ["dwarf", pres] + fdes_tokens(sec_fdes)
         b = [str(len(secs))]
